@@ -103,13 +103,23 @@ func ruleC18_2(c *Ctx, r *Rep) {
 	if fn == nil {
 		return
 	}
+	// the decrement may live in Check itself or in a private helper that only Check calls
 	var dec *ssa.Call
-	for _, ci := range callsIn(fn, false, func(cal *ssa.Function, _ ssa.CallInstruction) bool {
-		return fnPkgPath(cal) == "sync/atomic" && cal.Name() == "AddInt64"
-	}) {
-		call := ci.(*ssa.Call)
-		if d, ok := constInt(call.Call.Args[1]); ok && d == -1 && sources(call.Call.Args[0])["field:Count"] {
-			dec = call
+	for _, f := range c.Funcs {
+		if c.PkgOf(f) != "faults" || !c.partOf(f, "(*faults.Set).Check", 0) {
+			continue
+		}
+		for _, ci := range callsIn(f, false, func(cal *ssa.Function, _ ssa.CallInstruction) bool {
+			return fnPkgPath(cal) == "sync/atomic" && cal.Name() == "AddInt64"
+		}) {
+			call, isCall := ci.(*ssa.Call)
+			if !isCall {
+				continue
+			}
+			if d, ok := constInt(call.Call.Args[1]); ok && d == -1 && sources(call.Call.Args[0])["field:Count"] {
+				dec = call
+				fn = f
+			}
 		}
 	}
 	if dec == nil {
@@ -243,14 +253,14 @@ func ruleC18_4(c *Ctx, r *Rep) {
 				return false
 			}
 			z, isZ := constInt(bo.Y)
-			return isZ && z == 0 && sources(bo.X)["call:LoadInt64"]
+			return isZ && z == 0 && atomicCountRead(bo.X, 0)
 		}) || condHas(cs, true, func(v ssa.Value) bool {
 			bo, ok := v.(*ssa.BinOp)
 			if !ok || bo.Op != token.GTR {
 				return false
 			}
 			z, isZ := constInt(bo.Y)
-			return isZ && z == 0 && sources(bo.X)["call:LoadInt64"]
+			return isZ && z == 0 && atomicCountRead(bo.X, 0)
 		})
 		okOp := condHas(cs, false, func(v ssa.Value) bool {
 			bo, ok := v.(*ssa.BinOp)
@@ -340,6 +350,35 @@ func ruleC18_4(c *Ctx, r *Rep) {
 		fmt.Sprintf("match does not require every injected parameter to be present (%v) and equal (%v), over the whole parameter set (%v): calls that do not match are failed", missing, different, okLoop))
 }
 
+// atomicCountRead: v derives from atomic.LoadInt64 (of a Count), directly or through a module accessor every return
+// of which is such a load.
+func atomicCountRead(v ssa.Value, depth int) bool {
+	if sources(v)["call:LoadInt64"] {
+		return true
+	}
+	if depth > 2 || lastCtx == nil {
+		return false
+	}
+	call, ok := resolve(v).(*ssa.Call)
+	if !ok {
+		return false
+	}
+	cal := call.Call.StaticCallee()
+	if cal == nil || !lastCtx.inModule(cal) || len(cal.Blocks) == 0 {
+		return false
+	}
+	rets := returnsOf(cal)
+	if len(rets) == 0 {
+		return false
+	}
+	for _, ret := range rets {
+		if len(ret.Results) != 1 || !atomicCountRead(retResult(ret, 0), depth+1) {
+			return false
+		}
+	}
+	return true
+}
+
 func ruleC18_5(c *Ctx, r *Rep) {
 	for _, k := range []string{"(*faults.Set).prune", "(*faults.Set).Current"} {
 		fn := r.Anchor("C18.5", k)
@@ -353,7 +392,7 @@ func ruleC18_5(c *Ctx, r *Rep) {
 				if !isB || bo.Op != token.GTR {
 					continue
 				}
-				if z, isZ := constInt(bo.Y); isZ && z == 0 && (sources(bo.X)["call:LoadInt64"] || sources(bo.X)["field:Count"]) {
+				if z, isZ := constInt(bo.Y); isZ && z == 0 && (atomicCountRead(bo.X, 0) || sources(bo.X)["field:Count"]) {
 					// the comparison decides something
 					if refs := bo.Referrers(); refs != nil {
 						for _, u := range *refs {
